@@ -68,8 +68,9 @@ def gen_event(rng, uid, with_rule=True, zoned=None):
         props.append("X-ECHS-UMASK:0%o" % v)
         exp["umsk"] = v
     if rng.random() < 0.3:
-        v = rng.choice([0, 1, 2, 5, 61])
-        props.append("X-ECHS-MAX-SIMUL:%d" % v)
+        v = rng.choice([0, 1, 2, 5, 61, 8, 10])
+        # (a decimal count: a leading zero does not make it octal)
+        props.append("X-ECHS-MAX-SIMUL:%s%d" % ("0" if rng.random() < 0.3 else "", v))
         exp["maxsim"] = v
     if rng.random() < 0.25:
         v = rng.choice(["1001", "nobody", "0"])
